@@ -116,6 +116,7 @@ def build_measures():
     add('transitivity_wu', 'wu', lambda b, A, ci: (b.transitivity_wu(A),), (('T', S, AP),))
     add('transitivity_wd', 'wd', lambda b, A, ci: (b.transitivity_wd(A),), (('T', S, AP),))
     add('get_components', 'wu', lambda b, A, ci: b.get_components(A), (('comps', 'part', EX), ('sizes', MS, EX)))
+    add('get_components', 'wu', lambda b, A, ci: b.get_components(A, no_depend=True), (('comps', 'part', EX), ('sizes', MS, EX)), variant='no_depend=True')
     # ---- distance.py
     add('distance_bin', 'wd', lambda b, A, ci: (b.distance_bin(A),), (('D', MM, EX),))
     add('distance_wei', 'wd', lambda b, A, ci: b.distance_wei(A), (('D', MM, EX), ('B', 'x', EX)))
@@ -131,6 +132,11 @@ def build_measures():
     add('charpath', 'wd', lambda b, A, ci: b.charpath(b.distance_wei(A)[0], include_diagonal=False, include_infinite=False),
         (('lambda', S, AP), ('efficiency', S, AP), ('ecc', V, EX), ('radius', S, EX), ('diameter', S, EX)), variant='of distance_wei, finite only',
         need=lambda A: has_edge(A))
+    for inc_d, inc_i in ((True, True), (True, False)):
+        add('charpath', 'wd', lambda b, A, ci, inc_d=inc_d, inc_i=inc_i: b.charpath(b.distance_bin(A), include_diagonal=inc_d, include_infinite=inc_i),
+            (('lambda', S, AP), ('efficiency', S, AP), ('ecc', V, EX), ('radius', S, EX), ('diameter', S, EX)),
+            variant='of distance_bin, include_diagonal=%s include_infinite=%s' % (inc_d, inc_i), need=has_edge)
+    add('reachdist', 'bd', lambda b, A, ci: b.reachdist(A.copy(), ensure_binary=False), (('R', MM, EX), ('D', MM, EX)), variant='ensure_binary=False')
     # ---- efficiency.py
     add('efficiency_bin', 'wd', lambda b, A, ci: (b.efficiency_bin(A.copy()),), (('E', S, AP),), variant='global')
     add('efficiency_bin', 'wd', lambda b, A, ci: (b.efficiency_bin(A.copy(), local=True),), (('Eloc', V, AP),), variant='local')
@@ -160,10 +166,18 @@ def build_measures():
     for k in (1, 2, 3):
         add('kcore_bu', 'bu', lambda b, A, ci, k=k: b.kcore_bu(A, k), (('core', MM, EX), ('kn', S, EX)), variant='k=%d' % k)
         add('kcore_bd', 'bd', lambda b, A, ci, k=k + 1: b.kcore_bd(A, k), (('core', MM, EX), ('kn', S, EX)), variant='k=%d' % (k + 1))
+    # peel=True: peelorder as "round in which the node was peeled" (0 = never), peellevel flattened (one entry per peeled node)
+    add('kcore_bu', 'bu', lambda b, A, ci: _peel(b.kcore_bu(A, 2, peel=True), len(A)),
+        (('core', MM, EX), ('kn', S, EX), ('peel round of each node', V, EX), ('peellevel', D, EX)), variant='k=2 peel=True')
+    add('kcore_bd', 'bd', lambda b, A, ci: _peel(b.kcore_bd(A, 3, peel=True), len(A)),
+        (('core', MM, EX), ('kn', S, EX), ('peel round of each node', V, EX), ('peellevel', D, EX)), variant='k=3 peel=True')
     for s in (2, 4, 7):
         add('score_wu', 'wu', lambda b, A, ci, s=s: b.score_wu(A, s), (('score', MM, EX), ('sn', S, EX)), variant='s=%d' % s)
     add('rich_club_bu', 'bu', lambda b, A, ci: b.rich_club_bu(A), (('R', D, EX), ('Nk', D, EX), ('Ek', D, EX)), need=has_edge)
     add('rich_club_bd', 'bd', lambda b, A, ci: b.rich_club_bd(A), (('R', D, EX), ('Nk', D, EX), ('Ek', D, EX)), need=has_edge)
+    add('rich_club_bu', 'bu', lambda b, A, ci: b.rich_club_bu(A, klevel=2), (('R', D, EX), ('Nk', D, EX), ('Ek', D, EX)), variant='klevel=2', need=has_edge)
+    add('rich_club_bd', 'bd', lambda b, A, ci: b.rich_club_bd(A, klevel=3), (('R', D, EX), ('Nk', D, EX), ('Ek', D, EX)), variant='klevel=3', need=has_edge)
+    add('rich_club_wu', 'wu', lambda b, A, ci: (b.rich_club_wu(A, klevel=2),), (('Rw', D, EX),), variant='klevel=2', need=has_edge)
     add('rich_club_wu', 'wu', lambda b, A, ci: (b.rich_club_wu(A),), (('Rw', D, EX),), need=has_edge)
     add('rich_club_wd', 'wd', lambda b, A, ci: (b.rich_club_wd(A),), (('Rw', D, EX),), need=has_edge)
     add('assortativity_bin', 'bu', lambda b, A, ci: (b.assortativity_bin(A, 0),), (('r', S, AP),), variant='flag=0', need=has_edge)
@@ -173,7 +187,7 @@ def build_measures():
     # ---- similarity.py
     add('matching_ind', 'bd', lambda b, A, ci: b.matching_ind(A), (('Min', MM, EX), ('Mout', MM, EX), ('Mall', MM, EX)))
     add('matching_ind_und', 'bu', lambda b, A, ci: (b.matching_ind_und(A),), (('M0', MM, EX),))
-    for ns in (1, 2, 3, 4):
+    for ns in (0, 1, 2, 3, 4):
         add('gtom', 'bu', lambda b, A, ci, ns=ns: (b.gtom(A, ns),), (('gt', MM, EX),), variant='nr_steps=%d' % ns,
             cond={'nr_steps': ns, 'nr_steps_ge_3': ns >= 3})
     add('edge_nei_overlap_bu', 'bu', lambda b, A, ci: _eno(b.edge_nei_overlap_bu(A)), (('EC', MM, EX), ('ec,degij', MS, EX)),
@@ -181,6 +195,15 @@ def build_measures():
     add('edge_nei_overlap_bd', 'bd', lambda b, A, ci: _eno(b.edge_nei_overlap_bd(A)), (('EC', MM, EX), ('ec,degij', MS, EX)),
         legit_raise=('ZeroDivisionError', isolated_edge))
     return L
+
+
+def _peel(r, n):
+    core, kn, order, level = r
+    rnd = np.zeros(n)
+    for t, ff in enumerate(order):
+        rnd[np.asarray(ff, int)] = t + 1
+    lev = np.concatenate([np.asarray(x, float).ravel() for x in level]) if len(level) else np.zeros(0)
+    return core, kn, rnd, lev
 
 
 def _eno(r):
@@ -398,36 +421,155 @@ def check_pair(m, A, ci, p, base, permd, res, rep=None):
 
 def new_res(m, fam):
     return {'measure': m.key, 'family': fam, 'pairs': 0, 'ok_pairs': 0, 'calls': 0, 'timeouts': 0, 'both_raise': 0, 'raise_kinds': {}, 'excluded_differs': 0,
-            'viol': [], 'nontrivial': 0, 'sample': None, 'aborted': False, 'rep_pairs': {}, 'rep_rejected': {}}
+            'viol': [], 'nontrivial': 0, 'sample': None, 'aborted': False, 'rep_pairs': {}, 'rep_rejected': {}, 'pre_calls': 0}
 
 
 def perms_of(n):
     return [np.array(p) for p in itertools.permutations(range(n))]
 
 
-def run_item(item):
-    """item = (measure index, family, payload).  family 'exh': payload=(n, directed, subset or None): every labelled graph
-    (or the listed ones) x all n! permutations, f evaluated once per distinct labelled graph (cache);
-    family 'list': payload = list of (A, [perms]) ."""
-    mi, fam, payload = item[:3]
-    forced_rep = item[3] if len(item) > 3 else None      # replay: the representation stored with the case ('none' = default)
-    m = MEASURES[mi]
-    res = new_res(m, fam)
-    cache = {}
+# every call made by this worker process, most recent last (matrices of the last few only): a failing case is stored together
+# with what the process ran just before it, and --replay re-runs that trail first (hidden state carried between calls)
+import collections
+_TRAIL = collections.deque(maxlen=5)
+_NONDEFAULT = {}      # (bct module, n) -> the last few calls with a non-default option on inputs of that size
+_MODULE_OF = {}
 
-    def ev(A, ci, rep=None):
+
+def note_call(m, A, ci, rep):
+    e = (m.key, np.asarray(A).tolist(), np.asarray(ci).tolist(), rep)
+    _TRAIL.append(e)
+    if m.variant:       # per non-default variant and size: its first call and its last two
+        d = _NONDEFAULT.setdefault((module_of(m), len(A)), {})
+        if m.key not in d:
+            d[m.key] = [e, collections.deque(maxlen=2)]
+        else:
+            d[m.key][1].append(e)
+
+
+def history_for(m, A):
+    """what this worker ran before the call under test that could matter: the last non-default-option calls of routines of the
+    same source file on inputs of the same size, then the last five calls of any kind"""
+    h = []
+    for first, last in _NONDEFAULT.get((module_of(m), len(A)), {}).values():
+        h.append(first); h.extend(last)
+    return h + list(_TRAIL)
+
+
+def module_of(m):
+    if m.name not in _MODULE_OF:
+        _MODULE_OF[m.name] = getattr(getattr(bct_mod(), m.name, None), '__module__', '?')
+    return _MODULE_OF[m.name]
+
+
+def siblings(m):
+    """other variants living in the same bct source file (they may share module-level state), non-default options first"""
+    mod = module_of(m)
+    sib = [x for x in MEASURES if x is not m and module_of(x) == mod]
+    return sorted(sib, key=lambda x: (x.name != m.name, x.variant == ''))
+
+
+class Runner:
+    """all cases of one (measure variant, family) inside a batch; f is evaluated once per distinct labelled graph (cache)"""
+
+    def __init__(self, mi, fam, forced_rep=None):
+        self.m = MEASURES[mi]
+        self.fam = fam
+        self.res = new_res(self.m, fam)
+        self.cache = {}
+        self.seen = set()
+        self.mkey = self.m.key.encode() + b'|'
+        self.forced_rep = forced_rep
+
+    def ev(self, A, ci, rep=None):
+        m = self.m
         k = (A.tobytes(), ci.tobytes() if m.uses_ci else b'', rep)
-        if k not in cache:
+        if k not in self.cache:
             r = evaluate(m, A, ci, rep)
-            res['calls'] += 1
+            note_call(m, A, ci, rep)
+            self.res['calls'] += 1
             if r[0] == 'timeout':       # never cached: a wall-clock hit says nothing about the next call
                 return r
-            cache[k] = r
-        return cache[k]
+            self.cache[k] = r
+        return self.cache[k]
 
-    seen = set()
-    mkey = m.key.encode() + b'|'
-    if fam.startswith('exh'):
+    def graph(self, A, plist):
+        m, res = self.m, self.res
+        if res['timeouts'] >= ABORT_AFTER_TIMEOUTS:      # a hanging measure must not hang the check: give up
+            res['aborted'] = True
+            return
+        if graph_class(A) not in ACCEPT[m.dom]:
+            return
+        if m.need is not None and not m.need(A):
+            return
+        ci = ci_of(A)
+        exh = self.fam.startswith('exh')
+        rep = self.forced_rep if self.forced_rep is not None else (None if exh else pick_rep(m, A))
+        if rep == 'none':
+            rep = None
+        h = int(hashlib.sha1(b'pre' + self.mkey + A.tobytes()).hexdigest()[:8], 16)
+        if not exh and self.forced_rep is None and h % 3 == 0:
+            # history: a sibling variant (another option of the same routine first, else another routine of the same source file)
+            # runs on a same-size input right before the call under test; its result is not judged here
+            sib = [x for x in siblings(m) if graph_class(A) in ACCEPT[x.dom] and (x.need is None or x.need(A))]
+            if sib:
+                x = sib[(h // 3) % min(len(sib), 4)]
+                B = A[np.ix_(plist[-1], plist[-1])]
+                evaluate(x, B, ci[plist[-1]])
+                note_call(x, B, ci[plist[-1]], None)
+                res['pre_calls'] += 1
+        trail = history_for(m, A)
+        base = self.ev(A, ci, rep)
+        if rep is not None and base[0] == 'exc':
+            # "where accepted": the routine does not take this dtype/layout -> counted, and the case runs in the default one
+            res['rep_rejected'][rep] = res['rep_rejected'].get(rep, 0) + 1
+            rep = None
+            base = self.ev(A, ci, rep)
+        if base[0] == 'timeout':        # one call timed out (after the retry): one count, the graph is skipped
+            res['timeouts'] += 1
+            return
+        if rep is not None:
+            res['rep_pairs'][rep] = res['rep_pairs'].get(rep, 0) + len(plist)
+        for p in plist:
+            if res['timeouts'] >= ABORT_AFTER_TIMEOUTS:
+                break
+            Ap = A[np.ix_(p, p)]
+            permd = self.ev(Ap, ci[p], rep)
+            nv = len(res['viol'])
+            check_pair(m, A, ci, p, base, permd, res, rep)
+            if len(res['viol']) > nv:
+                res['viol'][-1]['detail']['worker_history'] = trail
+            if not (Ap == A).all():        # non-trivial: the renumbering changes the matrix (p is not an automorphism)
+                self.seen.add(int.from_bytes(hashlib.blake2b(self.mkey + bytes([len(A)]) + A.tobytes() + np.asarray(p, np.uint8).tobytes(),
+                                                             digest_size=8).digest(), 'little'))
+            if res['sample'] is None and base[0] == 'ok' and has_edge(A) and not (Ap == A).all() and len(res['viol']) == nv:
+                res['sample'] = {'measure': m.key, 'A': A.tolist(), 'p': [int(t) for t in p],
+                                 'f(A)': [np.asarray(o, float).tolist() for o in base[1]][:2]}
+
+    def finish(self):
+        res = self.res
+        res['nontrivial'] = len(self.seen)
+        res['keys'] = np.fromiter(self.seen, dtype=np.uint64, count=len(self.seen))
+        if len(res['viol']) > 40:
+            res['nviol_total'] = len(res['viol'])
+            res['viol'].sort(key=lambda v: len(json.dumps(v['detail'], default=str)))
+            res['viol'] = res['viol'][:40]
+        return res
+
+
+def run_batch(batch):
+    """A batch mixes measures (and, for the list families, sizes and families) inside one worker:
+    kind 'exh':  (fam, payload, [measure indices]) - every labelled graph of the family (or the listed ones) x all n!, the measures
+                 of the group taking turns on each graph in an order shuffled per graph;
+    kind 'list': [(measure index, fam, A, perms), ...] already shuffled by the parent.
+    -> list of per-(measure, family) results"""
+    rs = np.random.RandomState(batch['seed'])
+    forced = batch.get('forced_rep')
+    for (mk, A_, ci_, rp_) in batch.get('history', []):       # replay: what the failing worker ran just before
+        evaluate(MEASURES[MIDX[mk]], np.array(A_, float), np.array(ci_), rp_)
+    runners = {}
+    if batch['kind'] == 'exh':
+        fam, payload, mis = batch['fam'], batch['payload'], batch['mis']
         n, directed, subset, weights = payload
         graphs = list(all_graphs(n, directed, weights)) if subset is None else [np.array(a, float) for a in subset]
         if directed:        # the symmetric ones are covered by the undirected enumeration of the same n
@@ -435,52 +577,131 @@ def run_item(item):
         if weights != (1,):  # the binary ones are covered by the binary enumeration
             graphs = [A for A in graphs if graph_class(A)[0] != 'b']
         plist = perms_of(n)
-        work = [(A, plist) for A in graphs]
+        for mi in mis:
+            runners[(mi, fam)] = Runner(mi, fam, forced)
+        for A in graphs:
+            for mi in rs.permutation(mis):
+                runners[(int(mi), fam)].graph(A, plist)
     else:
-        work = [(np.array(a, float), [np.array(p) for p in ps]) for a, ps in payload]
-    for A, plist in work:
-        if res['timeouts'] >= ABORT_AFTER_TIMEOUTS:      # a hanging measure must not hang the check: give up on this item
-            res['aborted'] = True
-            break
-        if graph_class(A) not in ACCEPT[m.dom]:
+        for mi, fam, A, ps in batch['units']:
+            r = runners.get((mi, fam))
+            if r is None:
+                r = runners[(mi, fam)] = Runner(mi, fam, forced)
+            r.graph(np.array(A, float), [np.array(p) for p in ps])
+    return [r.finish() for r in runners.values()]
+
+
+# --------------------------------------------------------------------------- object-reuse / history probes (common.reuse_probe)
+
+PROBE_KINDS = ('renumber', 'lesion', 'pair', 'returned-edit')
+
+
+def _lesion(A):
+    """remove one connection in place (both directions if the matrix is symmetric): stays in every measure's domain class"""
+    und = bool((A == A.T).all())
+    idx = np.argwhere(A != 0)
+    if len(idx) == 0:
+        return
+    i, j = idx[len(idx) // 2]
+    A[i, j] = 0
+    if und:
+        A[j, i] = 0
+
+
+def run_probe(item):
+    """item = (measure index, A, p, kind).  -> (measure key, kind, None | violation dict)
+    renumber / lesion: common.reuse_probe - call f on the objects (A, ci), edit them IN PLACE (renumber both with p / remove a
+        connection), call f again on the same objects and compare with f on fresh copies of the edited arguments;
+    pair: the same with a sibling routine g called on the shared objects between the two calls of f (g(A); f(A));
+    returned-edit: call f, overwrite the returned arrays in place, call f again on the untouched argument: same values."""
+    mi, A, p, kind = item
+    m = MEASURES[mi]
+    A = np.array(A, float); p = np.array(p)
+    if graph_class(A) not in ACCEPT[m.dom] or (m.need is not None and not m.need(A)):
+        return m.key, kind, 'skipped', None
+    b = bct_mod()
+    ci = ci_of(A)
+    tol = 0.0 if all(e for (_, k, e) in m.outs if k not in ('x', 'xp')) else TOL
+    f = lambda A_, ci_: m.fn(b, A_, ci_)
+    if kind in ('renumber', 'lesion', 'pair'):
+        def mutate(args):
+            if kind == 'lesion':
+                _lesion(args[0])
+            else:
+                args[0][:] = args[0][np.ix_(p, p)]
+                args[1][:] = args[1][p]
+        fn = f
+        g = None
+        if kind == 'pair':
+            sib = [x for x in siblings(m) if graph_class(A) in ACCEPT[x.dom] and (x.need is None or x.need(A))]
+            if sib:
+                g = sib[int(p[0]) % min(len(sib), 4)]
+
+                def fn(A_, ci_):
+                    try:
+                        g.fn(b, A_, ci_)
+                    except Exception:
+                        pass
+                    return m.fn(b, A_, ci_)
+        args = [A.copy(), ci.copy()]
+        d = reuse_probe(fn, args, mutate, t=4 * m.t, tol=tol)
+        if d is None:
+            return m.key, kind, 'ok', None
+        d.update({'measure': m.key, 'probe': kind, 'A': A.tolist(), 'p': [int(t) for t in p], 'ci': ci.tolist(),
+                  'between_the_two_calls': None if g is None else g.key})
+        return m.key, kind, 'viol', {'measure': m.key, 'name': m.name, 'pred': 'result-depends-on-history', 'cond': cond_of(m, A), 'detail': d}
+    # returned-edit
+    A0 = A.copy()
+    r1 = call(f, A0, ci.copy(), t=4 * m.t)
+    if r1[0] != 'ok':
+        return m.key, kind, 'skipped', None
+    import copy
+    keep = copy.deepcopy(r1[1])
+    outs = r1[1] if isinstance(r1[1], tuple) else (r1[1],)
+    for o in outs:
+        if isinstance(o, np.ndarray) and o.size and o.flags.writeable:
+            try:
+                o[...] = 7
+            except Exception:
+                pass
+    r2 = call(f, A0, ci.copy(), t=4 * m.t)
+    if r2[0] == 'timeout':
+        return m.key, kind, 'skipped', None
+    if r2[0] == 'ok' and same_result(r2[1], keep, tol) and (A0 == A).all():
+        return m.key, kind, 'ok', None
+    d = {'measure': m.key, 'probe': kind, 'A': A.tolist(), 'p': [int(t) for t in p], 'ci': ci.tolist(),
+         'first_call': str(keep)[:300], 'after_editing_the_returned_arrays': str(r2[1])[:300], 'argument_changed': bool((A0 != A).any())}
+    return m.key, kind, 'viol', {'measure': m.key, 'name': m.name, 'pred': 'result-depends-on-history', 'cond': cond_of(m, A), 'detail': d}
+
+
+def build_probes(rs, tier, only=None):
+    """one probe per measure variant in the quick tier (kinds taking turns), six in the thorough tier; small random graphs of the
+    variant's own class, sizes 4..7 mixed"""
+    per = 1 if tier == 'quick' else 6
+    items = []
+    for mi, m in enumerate(MEASURES):
+        if only and m.name not in only and m.key not in only:
             continue
-        if m.need is not None and not m.need(A):
-            continue
-        ci = ci_of(A)
-        rep = forced_rep if forced_rep is not None else (None if fam.startswith('exh') else pick_rep(m, A))
-        if rep == 'none':
-            rep = None
-        base = ev(A, ci, rep)
-        if rep is not None and base[0] == 'exc':
-            # "where accepted": the routine does not take this dtype/layout -> counted, and the case runs in the default one
-            res['rep_rejected'][rep] = res['rep_rejected'].get(rep, 0) + 1
-            rep = None
-            base = ev(A, ci, rep)
-        if base[0] == 'timeout':        # one call timed out (after the retry): one count, the graph is skipped
-            res['timeouts'] += 1
-            continue
-        if rep is not None:
-            res['rep_pairs'][rep] = res['rep_pairs'].get(rep, 0) + len(plist)
-        for p in plist:
-            if res['timeouts'] >= ABORT_AFTER_TIMEOUTS:
-                break
-            Ap = A[np.ix_(p, p)]
-            permd = ev(Ap, ci[p], rep)
-            nv = len(res['viol'])
-            check_pair(m, A, ci, p, base, permd, res, rep)
-            if not (Ap == A).all():        # non-trivial: the renumbering changes the matrix (p is not an automorphism)
-                seen.add(int.from_bytes(hashlib.blake2b(mkey + bytes([len(A)]) + A.tobytes() + np.asarray(p, np.uint8).tobytes(),
-                                                        digest_size=8).digest(), 'little'))
-            if res['sample'] is None and base[0] == 'ok' and has_edge(A) and not (Ap == A).all() and len(res['viol']) == nv:
-                res['sample'] = {'measure': m.key, 'A': A.tolist(), 'p': [int(t) for t in p],
-                                 'f(A)': [np.asarray(o, float).tolist() for o in base[1]][:2]}
-    res['nontrivial'] = len(seen)
-    res['keys'] = np.fromiter(seen, dtype=np.uint64, count=len(seen))
-    if len(res['viol']) > 40:
-        res['nviol_total'] = len(res['viol'])
-        res['viol'].sort(key=lambda v: len(json.dumps(v['detail'], default=str)))
-        res['viol'] = res['viol'][:40]
-    return res
+        cls = sorted(ACCEPT[m.dom])[-1] if m.dom not in ('su', 'sd') else 'su'
+        cls = {'bu': 'bu', 'bd': 'bd', 'wu': 'wu', 'wd': 'wd', 'su': 'su', 'sd': 'su'}[m.dom]
+        for k in range(per):
+            n = int(rs.randint(4, 8))
+            A = rand_graph(rs, n, rs.choice([.4, .6]), cls[1] == 'd', wmax=1 if cls[0] == 'b' else 3, signed=cls[0] == 's')
+            q = rs.permutation(n)               # keep it connected: the spectral measures need it, the others do not mind
+            for a_, b_ in zip(q[:-1], q[1:]):
+                if A[a_, b_] == 0:
+                    A[a_, b_] = 1
+                    if cls[1] == 'u':
+                        A[b_, a_] = 1
+            if cls[1] == 'u':
+                A = np.triu(A, 1); A = A + A.T
+            if cls[0] == 's':
+                A[q[0], q[1]] = A[q[1], q[0]] = -1
+            p = rs.permutation(n)
+            if (p == np.arange(n)).all():
+                p = np.roll(p, 1)
+            items.append((mi, A.tolist(), p.tolist(), PROBE_KINDS[(mi + k) % len(PROBE_KINDS)]))
+    return items
 
 
 # --------------------------------------------------------------------------- input families
@@ -722,19 +943,22 @@ def gen_families(rs, tier):
     return fams
 
 
-def build_items(fams, only=None):
-    items = []
-    for mi, m in enumerate(MEASURES):
-        if only and m.name not in only and m.key not in only:
-            continue
-        for fam, payload in fams:
+def build_batches(rs, fams, only=None, forced_rep=None, history=None):
+    """work for the pool: batches that mix measures (group of 4 variants taking turns per graph for the exhaustive families;
+    for the list families single (variant, graph) units of all variants, families and sizes shuffled together)"""
+    batches, units = [], []
+    for fam, payload in fams:
+        mis = []
+        for mi, m in enumerate(MEASURES):
+            if only and m.name not in only and m.key not in only:
+                continue
             if fam.startswith('exh'):
                 n, directed, sub, weights = payload
                 if directed and m.dom in ('bu', 'wu', 'su'):
                     continue
                 if weights != (1,) and m.dom[0] == 'b' or (-1 in weights and m.dom[0] != 's'):
                     continue
-                items.append((mi, fam, payload))
+                mis.append(mi)
             else:
                 if fam in FAMILY_ONLY and m.name not in FAMILY_ONLY[fam]:
                     continue
@@ -743,11 +967,32 @@ def build_items(fams, only=None):
                     cls = fam.rsplit('-', 1)[1]
                 if cls is not None and cls not in ACCEPT[m.dom]:
                     continue
-                # split long lists so that the pool balances
-                step = 1 if fam.startswith('n5') or fam.startswith('neartie') else 8
-                for o in range(0, len(payload), step):
-                    items.append((mi, fam, payload[o:o + step]))
-    return items
+                for A, ps in payload:
+                    units.append((mi, fam, A, ps))
+        if fam.startswith('exh') and mis:
+            mis = [int(x) for x in rs.permutation(mis)]
+            n, directed, sub, weights = payload
+            ngraphs = len(sub) if sub is not None else (1 + len(weights)) ** (n * (n - 1) // (1 if directed else 2))
+            group = 4 if ngraphs * math.factorial(n) > 2000 else 16
+            for o in range(0, len(mis), group):
+                batches.append({'kind': 'exh', 'fam': fam, 'payload': payload, 'mis': mis[o:o + group], 'cost': ngraphs * math.factorial(n) * len(mis[o:o + group])})
+    order = rs.permutation(len(units))
+    cur, cost = [], 0
+    for i in order:
+        u = units[int(i)]
+        cur.append(u); cost += len(u[3])
+        if cost >= 1500:
+            batches.append({'kind': 'list', 'units': cur, 'cost': cost}); cur, cost = [], 0
+    if cur:
+        batches.append({'kind': 'list', 'units': cur, 'cost': cost})
+    for b_ in batches:
+        b_['seed'] = int(rs.randint(2 ** 31 - 1))
+        if forced_rep is not None:
+            b_['forced_rep'] = forced_rep
+        if history:
+            b_['history'] = history
+    batches.sort(key=lambda b_: -b_['cost'])       # heavy ones first, one batch per task so that the pool balances
+    return batches
 
 
 class _Counted(set):
@@ -798,22 +1043,27 @@ def main():
     if ck.replay:
         rp = json.load(open(ck.replay))
         c = rp['case']
+        if c.get('probe'):
+            key, kind, st, v = run_probe((MIDX[c['measure']], c['A'], c['p'], c['probe']))
+            ck.cov['evaluations'] += 1
+            ck._nontrivial = {0, 1}
+            if v is not None:
+                ck.violation(v['name'], v['pred'], v['detail'], v['cond'])
+            ck.finish()
         key = c['measure']
         fams = [('replay', [(c['A'], [c['p']])])]
         only = {key}
         replay_rep = c.get('rep') or 'none' 
     else:
         fams = gen_families(ck.rs, ck.tier)
-    items = build_items(fams, only)
     if ck.replay:
-        items = [it + (replay_rep,) for it in items]
-    # heavy items (exhaustive families) first, one item per task so that the pool balances
-    weight = lambda it: -(len(list(it[2][2])) if it[1].startswith('exh') and it[2][2] is not None else
-                          ((1 + len(it[2][3])) ** (it[2][0] * (it[2][0] - 1) // (1 if it[2][1] else 2)) if it[1].startswith('exh') else len(it[2])))
-    items.sort(key=weight)
+        batches = build_batches(ck.rs, fams, only, forced_rep=replay_rep, history=rp['case'].get('worker_history'))
+    else:
+        batches = build_batches(ck.rs, fams, only)
     t_ = time.time()
-    results = pmap1(run_item, items)
+    results = [r for rl in pmap1(run_batch, batches) for r in rl]
     ck.dist['search_s'] = round(time.time() - t_, 1)
+    ck.count('batches', len(batches))
     table = {}
     pool_samples = {}
     for r in results:
@@ -821,6 +1071,7 @@ def main():
                                             'excluded_outputs_differ': 0, 'nontrivial': 0})
         t['pairs'] += r['pairs']; t['calls'] += r['calls']; t['returned_normally'] += r['ok_pairs']; t['timeouts'] += r['timeouts']; t['both_raise'] += r['both_raise']
         t['excluded_outputs_differ'] += r['excluded_differs']; t['nontrivial'] += r['nontrivial']
+        ck.count('calls_preceded_by_a_sibling_variant', r['pre_calls'])
         if r['aborted']:
             t['items_aborted_on_timeouts'] = t.get('items_aborted_on_timeouts', 0) + 1
         for rp, c in r['rep_pairs'].items():
@@ -863,6 +1114,19 @@ def main():
     ck._nontrivial = _Counted(len(allkeys))
     ck.cov['exhaustive'] = False
     # correspondence with the Lean model
+    if not ck.replay:
+        t_ = time.time()
+        probes = build_probes(ck.rs, ck.tier, only)
+        probes = [probes[int(i)] for i in ck.rs.permutation(len(probes))]
+        pk = {}
+        for key, kind, st, v in pmap1(run_probe, probes):
+            pk[kind + ':' + st] = pk.get(kind + ':' + st, 0) + 1
+            if st != 'skipped':
+                ck.cov['evaluations'] += 1
+            if v is not None:
+                ck.violation(v['name'], v['pred'], v['detail'], v['cond'])
+        ck.cov['reuse_probes'] = dict(sorted(pk.items()))
+        ck.dist['probes_s'] = round(time.time() - t_, 1)
     if ok and not ck.replay:
         t_ = time.time()
         correspondence(ck)
